@@ -99,6 +99,88 @@ def refusal_satisfiable(cond, val, env):
     return (not inside_all), (iv, (lo, hi), X)
 
 
+def allocator_obligations(ck, tm, R=lambda r: r):
+    """R11.1-R11.3, R11.5 on the loop-summarised allocator(s) of one target; returns the largest accepted distance (None if unknown).
+    `R` renames the rule ids when another property repeats these obligations (C05 R5.10)."""
+    allocs = allocator_fns(tm)
+    ck.floor(R("R11.1"), "allocator-functions", len(allocs), 1, tm.target)
+    bound_strict = None
+    for p in allocs:
+        an = short(p)
+        try:
+            src, res = allocator_contract(tm, p)
+            vs = allocator_variants(tm, p)
+        except Exception as e:
+            ck.ob(R("R11.1"), "%s/analysable" % an, tm.target, False, "allocator could not be analysed: %s" % e)
+            continue
+        for f in tm.machines[(p, "havoc")].entered:
+            ck.analysed_fn(tm.target, f)
+        nret = nrej = ndiv = 0
+        for v in vs:
+            maps = [e for e in v.trace if e.kind == "ffi" and e.name in ALLOC_FFI]
+            frees = [e for e in v.trace if e.kind == "ffi" and e.name in FREE_FFI]
+            if v.status == "returned":
+                nret += 1
+                ret = v.ret
+                ok_ret = bool(maps) and isinstance(ret, Int) and same_expr(ret.e, maps[-1].ret.e)
+                # success edge of the sentinel test
+                sent = False
+                for c in guards.true_conds(v.decisions):
+                    if c.op == "ne" and maps and any(same_expr(x, maps[-1].ret.e) for x in c.args) and any(x.is_const() and x.val in (0, mask(x.w)) for x in c.args):
+                        sent = True
+                b = [bb for vv, rr, bb in res if vv is v]
+                bound = b[0] if b else None
+                ck.ob(R("R11.1"), "%s/returns-accepted-mapping" % an, tm.target, ok_ret and sent and bound is not None,
+                      "returns %s; mapping call result %s; failure sentinel excluded: %s; accepted distance: |placed - function| <= %s" % (
+                          fmt(ret.e, 3) if isinstance(ret, Int) else ret, fmt(maps[-1].ret.e, 3) if maps else "none", sent,
+                          hex(bound) if isinstance(bound, int) else bound), where(maps[-1]) if maps else None)
+                if isinstance(bound, int):
+                    bound_strict = bound if bound_strict is None else max(bound_strict, bound)
+            elif v.status == "backedge":
+                if maps and frees:
+                    nrej += 1
+                # mapping succeeded but was rejected => must be released
+                succeeded = False
+                for c in guards.true_conds(v.decisions):
+                    if c.op == "ne" and maps and any(same_expr(x, maps[-1].ret.e) for x in c.args) and any(x.is_const() and x.val in (0, mask(x.w)) for x in c.args):
+                        succeeded = True
+                if succeeded:
+                    ok = len(frees) == 1 and same_expr(frees[0].args[0].e, maps[-1].ret.e) and (
+                        (tm.os == "windows" and frees[0].args[1].is_const() and frees[0].args[1].cval() == 0 and frees[0].args[2].is_const() and frees[0].args[2].cval() == 0x8000)
+                        or (tm.os != "windows" and same_expr(frees[0].args[1].e, maps[-1].args[1].e)))
+                    ck.ob(R("R11.2"), "%s/rejected-placement-released" % an, tm.target, ok,
+                          "placement outside the accepted distance: %s" % ("released with %s(%s, %s)" % (short(frees[0].name), fmt(frees[0].args[0].e, 3), fmt(frees[0].args[1].e, 3))
+                                                                              if frees else "NOT released before the next iteration"), where(maps[-1]))
+                else:
+                    ck.ob(R("R11.2"), "%s/failed-mapping-not-released" % an, tm.target, not frees, "failed mapping attempt releases %d mapping(s)" % len(frees))
+                # R11.5 progress of the hint
+                hint = maps[-1].args[0] if maps else None
+                adv = None
+                if hint is not None and hint.e.op == "loopvar":
+                    fr = v.frames[0] if v.frames else None
+                    if fr is not None:
+                        names = {d["name"]: d["place"]["l"] for d in fr.body["debug"] if not d["place"]["p"]}
+                        l = names.get(hint.e.args[0])
+                        if l is not None:
+                            nv = fr.locals[l].val
+                            if isinstance(nv, Int):
+                                terms, c = affine(binop("sub", nv.e, hint.e, nv.w), nv.w)
+                                adv = (terms, c)
+                ok5 = adv is not None and ((not adv[0] and 0 < adv[1] < (1 << 40)) or (len(adv[0]) == 1 and list(adv[0].values())[0] == 1 and adv[1] == 0))
+                ck.ob(R("R11.5"), "%s/hint-advances" % an, tm.target, ok5,
+                      "next hint - hint = %s" % ("%s + %s" % ({fmt(k, 3): vv for k, vv in adv[0].items()}, adv[1]) if adv else "unknown"),
+                      where(maps[-1]) if maps else None)
+            elif v.status == "diverged":
+                ndiv += 1
+                ck.ob(R("R11.3"), "%s/exhaustion-diverges" % an, tm.target, not frees or True, "loop exit diverges (%s)" % v.note)
+            else:
+                ck.ob(R("R11.3"), "%s/unexpected-exit" % an, tm.target, False, "allocator path ends with status %s" % v.status)
+        ck.floor(R("R11.1"), "%s/accepting-paths" % an, nret, 1, tm.target)
+        ck.floor(R("R11.2"), "%s/rejecting-paths" % an, nrej, 1, tm.target)
+        ck.floor(R("R11.3"), "%s/diverging-paths" % an, ndiv, 1, tm.target)
+    return bound_strict
+
+
 def run(ck, models, tier):
     ck.decided, ck.not_decided = DECIDED, NOT_DECIDED
     ck.trusted += ["rustc MIR", "std models (abs_diff, saturating_sub as opaque arithmetic)", "mmap/VirtualAlloc return the sentinel on failure"]
@@ -106,82 +188,7 @@ def run(ck, models, tier):
     for tm in models:
         if tm.arch == "arm":
             continue
-        allocs = allocator_fns(tm)
-        ck.floor("R11.1", "allocator-functions", len(allocs), 1, tm.target)
-        bound_strict = None
-        for p in allocs:
-            an = short(p)
-            try:
-                src, res = allocator_contract(tm, p)
-                vs = allocator_variants(tm, p)
-            except Exception as e:
-                ck.ob("R11.1", "%s/analysable" % an, tm.target, False, "allocator could not be analysed: %s" % e)
-                continue
-            for f in tm.machines[(p, "havoc")].entered:
-                ck.analysed_fn(tm.target, f)
-            nret = nrej = ndiv = 0
-            for v in vs:
-                maps = [e for e in v.trace if e.kind == "ffi" and e.name in ALLOC_FFI]
-                frees = [e for e in v.trace if e.kind == "ffi" and e.name in FREE_FFI]
-                if v.status == "returned":
-                    nret += 1
-                    ret = v.ret
-                    ok_ret = bool(maps) and isinstance(ret, Int) and same_expr(ret.e, maps[-1].ret.e)
-                    # success edge of the sentinel test
-                    sent = False
-                    for c in guards.true_conds(v.decisions):
-                        if c.op == "ne" and maps and any(same_expr(x, maps[-1].ret.e) for x in c.args) and any(x.is_const() and x.val in (0, mask(x.w)) for x in c.args):
-                            sent = True
-                    b = [bb for vv, rr, bb in res if vv is v]
-                    bound = b[0] if b else None
-                    ck.ob("R11.1", "%s/returns-accepted-mapping" % an, tm.target, ok_ret and sent and bound is not None,
-                          "returns %s; mapping call result %s; failure sentinel excluded: %s; accepted distance: |placed - function| <= %s" % (
-                              fmt(ret.e, 3) if isinstance(ret, Int) else ret, fmt(maps[-1].ret.e, 3) if maps else "none", sent,
-                              hex(bound) if isinstance(bound, int) else bound), where(maps[-1]) if maps else None)
-                    if isinstance(bound, int):
-                        bound_strict = bound if bound_strict is None else max(bound_strict, bound)
-                elif v.status == "backedge":
-                    if maps and frees:
-                        nrej += 1
-                    # mapping succeeded but was rejected => must be released
-                    succeeded = False
-                    for c in guards.true_conds(v.decisions):
-                        if c.op == "ne" and maps and any(same_expr(x, maps[-1].ret.e) for x in c.args) and any(x.is_const() and x.val in (0, mask(x.w)) for x in c.args):
-                            succeeded = True
-                    if succeeded:
-                        ok = len(frees) == 1 and same_expr(frees[0].args[0].e, maps[-1].ret.e) and (
-                            (tm.os == "windows" and frees[0].args[1].is_const() and frees[0].args[1].cval() == 0 and frees[0].args[2].is_const() and frees[0].args[2].cval() == 0x8000)
-                            or (tm.os != "windows" and same_expr(frees[0].args[1].e, maps[-1].args[1].e)))
-                        ck.ob("R11.2", "%s/rejected-placement-released" % an, tm.target, ok,
-                              "placement outside the accepted distance: %s" % ("released with %s(%s, %s)" % (short(frees[0].name), fmt(frees[0].args[0].e, 3), fmt(frees[0].args[1].e, 3))
-                                                                                  if frees else "NOT released before the next iteration"), where(maps[-1]))
-                    else:
-                        ck.ob("R11.2", "%s/failed-mapping-not-released" % an, tm.target, not frees, "failed mapping attempt releases %d mapping(s)" % len(frees))
-                    # R11.5 progress of the hint
-                    hint = maps[-1].args[0] if maps else None
-                    adv = None
-                    if hint is not None and hint.e.op == "loopvar":
-                        fr = v.frames[0] if v.frames else None
-                        if fr is not None:
-                            names = {d["name"]: d["place"]["l"] for d in fr.body["debug"] if not d["place"]["p"]}
-                            l = names.get(hint.e.args[0])
-                            if l is not None:
-                                nv = fr.locals[l].val
-                                if isinstance(nv, Int):
-                                    terms, c = affine(binop("sub", nv.e, hint.e, nv.w), nv.w)
-                                    adv = (terms, c)
-                    ok5 = adv is not None and ((not adv[0] and 0 < adv[1] < (1 << 40)) or (len(adv[0]) == 1 and list(adv[0].values())[0] == 1 and adv[1] == 0))
-                    ck.ob("R11.5", "%s/hint-advances" % an, tm.target, ok5,
-                          "next hint - hint = %s" % ("%s + %s" % ({fmt(k, 3): vv for k, vv in adv[0].items()}, adv[1]) if adv else "unknown"),
-                          where(maps[-1]) if maps else None)
-                elif v.status == "diverged":
-                    ndiv += 1
-                    ck.ob("R11.3", "%s/exhaustion-diverges" % an, tm.target, not frees or True, "loop exit diverges (%s)" % v.note)
-                else:
-                    ck.ob("R11.3", "%s/unexpected-exit" % an, tm.target, False, "allocator path ends with status %s" % v.status)
-            ck.floor("R11.1", "%s/accepting-paths" % an, nret, 1, tm.target)
-            ck.floor("R11.2", "%s/rejecting-paths" % an, nrej, 1, tm.target)
-            ck.floor("R11.3", "%s/diverging-paths" % an, ndiv, 1, tm.target)
+        bound_strict = allocator_obligations(ck, tm)
         # ---------------- R11.4 / R11.6 on install roots
         for p, func, repl, boolval in patches.roots_and_roles(tm):
             rn = short(p)
